@@ -9,54 +9,87 @@ import Bptk.Core.C17
   ev <now> keepalive <id>            -> <reply>
   ev <now> metrics | fullmetrics     -> <reply>
   <reply> = ok|err;live=id:last:timeout:sess,…;destroyed=id,…;stored=id:timeout,…   (stored: effective entry per id, by id)
+wave 2:
+  ev <now> create <signed-µs>        (a negative timeout runs as 0: `clampTimeout`)
+  ev <now> stop <id> | savestate | loadstate
+  qmicros w d h m s ms us            -> <Int>   (unit values in QUARTERS; timedelta rounds half to even)
+  live is printed by ascending id and the ids destroyed by ONE request in ascending order (dict / directory
+  listing order after a load-state is not part of the model)
 -/
 open Bptk.C17
 
+def insertBy (f : α → Nat) (x : α) : List α → List α
+  | [] => [x]
+  | y :: ys => if f x ≤ f y then x :: y :: ys else y :: insertBy f x ys
+
+def sortBy (f : α → Nat) (l : List α) : List α := l.foldr (insertBy f) []
+
 def showLive (s : State) : String :=
-  ",".intercalate (s.insts.map fun i => s!"{i.id}:{i.last}:{i.timeout}:{if i.sess then 1 else 0}")
+  ",".intercalate ((sortBy (·.id) s.insts).map fun i => s!"{i.id}:{i.last}:{i.timeout}:{if i.sess then 1 else 0}")
 
 def showStored (s : State) : String :=
   let ids := (List.range s.next).filter (fun k => (lookupStored s.stored k).isSome)
   ",".intercalate (ids.map fun k => s!"{k}:{(lookupStored s.stored k).getD 0}")
 
-def reply (s : State) (ok : Bool) : String :=
-  let d := ",".intercalate (s.destroyed.map toString)
-  s!"{if ok then "ok" else "err"};live={showLive s};destroyed={d};stored={showStored s}"
+def reply (s : State) (ok : Bool) (shown : List Nat) : String × List Nat :=
+  let shown' := shown ++ sortBy id (s.destroyed.drop shown.length)
+  let d := ",".intercalate (shown'.map toString)
+  (s!"{if ok then "ok" else "err"};live={showLive s};destroyed={d};stored={showStored s}", shown')
 
 def parseKind : String → Option Kind
   | "begin" => some .begin | "results" => some .results | "step" => some .step | "end" => some .endS
   | _ => none
 
 def parseEv : List String → Option Ev
-  | ["create", t] => t.toNat?.map .create
+  | ["create", t] => t.toInt?.map (fun z => .create (clampTimeout z))
   | ["access", i, k] => do some (.access (← i.toNat?) (← parseKind k))
   | ["keepalive", i] => i.toNat?.map .keepAlive
   | ["metrics"] => some .metrics
   | ["fullmetrics"] => some .fullMetrics
   | _ => none
 
-def stepLine (c : Cfg) (s : State) (line : String) : Cfg × State × String :=
+def parseEv2 : List String → Option Ev2
+  | ["stop", i] => i.toNat?.map .stop
+  | ["savestate"] => some .saveState
+  | ["loadstate"] => some .loadState
+  | l => (parseEv l).map .old
+
+structure DS where
+  c : Cfg
+  s : State
+  shown : List Nat     -- the destroy log as printed so far
+
+def stepLine (d : DS) (line : String) : DS × String :=
+  let c := d.c
+  let s := d.s
   match line.trimAscii.toString.splitOn " " with
   | ["cfg", "keepAliveRestores", v] =>
-      if v == "1" || v == "0" then ({ c with keepAliveRestores := v == "1" }, s, "ok") else (c, s, "bad-op")
-  | ["new"] => (c, State.init, "ok")
-  | ["micros", w, d, h, m, sec, ms, us] =>
-      match w.toNat?, d.toNat?, h.toNat?, m.toNat?, sec.toNat?, ms.toNat?, us.toNat? with
-      | some w, some d, some h, some m, some sec, some ms, some us =>
-        (c, s, toString (Timeout.toMicros { weeks := w, days := d, hours := h, minutes := m, seconds := sec,
-                                            milliseconds := ms, microseconds := us }))
-      | _, _, _, _, _, _, _ => (c, s, "bad-op")
+      if v == "1" || v == "0" then ({ d with c := { c with keepAliveRestores := v == "1" } }, "ok") else (d, "bad-op")
+  | ["new"] => ({ d with s := State.init, shown := [] }, "ok")
+  | ["qmicros", w, dd, h, m, sec, ms, us] =>
+      match w.toInt?, dd.toInt?, h.toInt?, m.toInt?, sec.toInt?, ms.toInt?, us.toInt? with
+      | some w, some dd, some h, some m, some sec, some ms, some us => (d, toString (quarterMicros w dd h m sec ms us))
+      | _, _, _, _, _, _, _ => (d, "bad-op")
+  | ["micros", w, dd, h, m, sec, ms, us] =>
+      match w.toNat?, dd.toNat?, h.toNat?, m.toNat?, sec.toNat?, ms.toNat?, us.toNat? with
+      | some w, some dd, some h, some m, some sec, some ms, some us =>
+        (d, toString (Timeout.toMicros { weeks := w, days := dd, hours := h, minutes := m, seconds := sec,
+                                         milliseconds := ms, microseconds := us }))
+      | _, _, _, _, _, _, _ => (d, "bad-op")
   | "ev" :: now :: rest =>
-      match now.toNat?, parseEv rest with
-      | some now, some e => let (s', ok) := step c s now e; (c, s', reply s' ok)
-      | _, _ => (c, s, "bad-op")
-  | _ => (c, s, "bad-op")
+      match now.toNat?, parseEv2 rest with
+      | some now, some e =>
+        let (s', ok) := step2 c s now e
+        let (out, shown') := reply s' ok d.shown
+        ({ d with s := s', shown := shown' }, out)
+      | _, _ => (d, "bad-op")
+  | _ => (d, "bad-op")
 
-partial def loop (h : IO.FS.Stream) (c : Cfg) (s : State) : IO Unit := do
+partial def loop (h : IO.FS.Stream) (d : DS) : IO Unit := do
   let line ← h.getLine
   if line.isEmpty then return ()
-  let (c', s', out) := stepLine c s line
+  let (d', out) := stepLine d line
   IO.println out
-  loop h c' s'
+  loop h d'
 
-def main : IO Unit := do loop (← IO.getStdin) { keepAliveRestores := false } State.init
+def main : IO Unit := do loop (← IO.getStdin) { c := { keepAliveRestores := false }, s := State.init, shown := [] }
